@@ -11,6 +11,7 @@ def _est(name):
     return {
         "CORRELATION.biased": lambda x, p: (np.asarray(CORRELATION(x, maxlags=p, norm="biased")),),
         "CORRELATION.unbiased": lambda x, p: (np.asarray(CORRELATION(x, maxlags=p, norm="unbiased")),),
+        "CORRELATION.coeff": lambda x, p: (np.asarray(CORRELATION(x, maxlags=p, norm="coeff")),),
         "aryule": lambda x, p: spectrum.aryule(x, p),
         "arburg": lambda x, p: spectrum.arburg(x, p),
         "arcovar": lambda x, p: spectrum.arcovar(x, p),
@@ -18,7 +19,7 @@ def _est(name):
     }[name]
 
 
-KINDS = {"CORRELATION.biased": ("seq0",), "CORRELATION.unbiased": ("seq0",), "aryule": ("seq1", "inv", "seq1"),
+KINDS = {"CORRELATION.biased": ("seq0",), "CORRELATION.unbiased": ("seq0",), "CORRELATION.coeff": ("seq0",), "aryule": ("seq1", "inv", "seq1"),
          "arburg": ("seq1", "inv", "seq1"), "arcovar": ("seq1", "inv"), "modcovar": ("seq1", "inv")}
 
 
@@ -86,6 +87,10 @@ def c04psd(inp):
         if tr == "real":
             x = _x(N, False, seed)
             one, two = _cls(cls, x.copy(), p, NFFT), _cls(cls, x.astype(complex), p, NFFT)
+            want_len = NFFT // 2 + 1 if NFFT % 2 == 0 else (NFFT + 1) // 2
+            if len(one) != want_len or len(two) != NFFT:
+                return False, "%s (N=%d, p=%d, NFFT=%d): one-sided estimate has %d values (expected %d), two-sided %d" % (
+                    cls, N, p, NFFT, len(one), want_len, len(two))
             if not close(one, 2 * two[:len(one)], 1e-8):
                 return False, "%s (N=%d, p=%d, NFFT=%d): one-sided estimate of real data is not twice the first half of the two-sided one" % (cls, N, p, NFFT)
             continue
